@@ -355,6 +355,7 @@ func (w *World) monQos2Once(h []ev) {
 	taintMode := map[string]string{}
 	excused := map[string]bool{} // a second hand-over that happened while the first acknowledgement was still outstanding
 	refused := map[string]bool{} // Backend.Publish returned an error for this message
+	refusedN := map[string]int{}
 	for _, e := range h {
 		switch e.kind {
 		case "ackmode":
@@ -392,6 +393,7 @@ func (w *World) monQos2Once(h []ev) {
 		case "bpublish-refused":
 			if p, ok := e.pkt.(*packet.Publish); ok && p.Message.QOS == 2 {
 				refused[cid(e.conn)+"|"+string(p.Message.Payload)] = true
+				refusedN[cid(e.conn)+"|"+string(p.Message.Payload)]++
 			}
 		case "bpublish":
 			if p, ok := e.pkt.(*packet.Publish); ok && p.Message.QOS == 2 && len(p.Message.Payload) > 0 && !strings.HasPrefix(string(p.Message.Payload), "will-") {
@@ -433,7 +435,9 @@ func (w *World) monQos2Once(h []ev) {
 		}
 	}
 	for k := range comp {
-		if count[k] == 0 || (count[k] > 1 && !excused[k]) {
+		if count[k]-refusedN[k] <= 0 {
+			w.hit("qos2-not-exactly-once", fmt.Sprintf("QoS 2 message %s completed (PUBCOMP sent) although the backend accepted it %d times (handed over %d times, refused %d times)", k, count[k]-refusedN[k], count[k], refusedN[k]))
+		} else if count[k] == 0 || (count[k] > 1 && !excused[k]) {
 			w.hit("qos2-not-exactly-once", fmt.Sprintf("QoS 2 message %s completed (PUBCOMP sent) but handed to the backend %d times", k, count[k]))
 		}
 	}
